@@ -170,38 +170,57 @@ func RunFixed(t *testing.T, name, profile string, pools Pools, ops []Op, mon Mon
 	return out
 }
 
-// CaseV renders one history as a Gallina term of type RouteTable.case.
-func CaseV(h History) string {
+func strsV(strs []string) string {
+	var out []string
+	for _, s := range strs {
+		var b []string
+		for i := 0; i < len(s); i++ {
+			b = append(b, fmt.Sprint(s[i]))
+		}
+		out = append(out, "["+strings.Join(b, ";")+"]")
+	}
+	return "[" + strings.Join(out, ";") + "]"
+}
+
+// CaseV renders one history as a Gallina term of type RouteTable.case; strs
+// is the name of (or the term for) its string pool.
+func CaseV(h History, strs string) string {
 	p := h.Pools
 	var ops []string
 	for _, op := range h.Ops {
 		ops = append(ops, "["+strings.Join(p.Encode(op), ";")+"]")
 	}
-	var nets, strs, obs []string
+	var nets, obs []string
 	for _, n := range p.Nets {
 		nets = append(nets, fmt.Sprintf("%d;%s;%d", n.Fam, n.IP, n.Ones))
-	}
-	for _, s := range p.Strs {
-		var b []string
-		for i := 0; i < len(s); i++ {
-			b = append(b, fmt.Sprint(s[i]))
-		}
-		strs = append(strs, "["+strings.Join(b, ";")+"]")
 	}
 	for _, o := range h.Obs {
 		obs = append(obs, fmt.Sprint(o))
 	}
-	return "([" + strings.Join(nets, ";") + "],[" + strings.Join(strs, ";") + "],[" + strings.Join(p.Nums, ";") + "],[" +
+	return "([" + strings.Join(nets, ";") + "]," + strs + ",[" + strings.Join(p.Nums, ";") + "],[" +
 		strings.Join(ops, ";") + "],[" + strings.Join(obs, ";") + "])"
 }
 
-// CasesFile renders the complete cases.v.
+// CasesFile renders the complete cases.v. String pools that several
+// histories share are stated once.
 func CasesFile(hs []History) string {
 	var sb strings.Builder
 	sb.WriteString("From Coq Require Import List NArith.\nFrom MM Require Import Model.RouteTable.\nImport ListNotations.\nLocal Open Scope N_scope.\n")
 	var names []string
+	pools := map[string]string{}
 	for i, h := range hs {
-		fmt.Fprintf(&sb, "Definition c%d : case := %s.\n", i, CaseV(h))
+		for _, op := range h.Ops { // completes the pools
+			h.Pools.Encode(op)
+		}
+		hs[i].Pools = h.Pools
+		sv := strsV(h.Pools.Strs)
+		name, ok := pools[sv]
+		if !ok {
+			name = fmt.Sprintf("s%d", len(pools))
+			pools[sv] = name
+			fmt.Fprintf(&sb, "Definition %s : list str := %s.\n", name, sv)
+		}
+		fmt.Fprintf(&sb, "Definition c%d : case := %s.\n", i, CaseV(hs[i], name))
 		names = append(names, fmt.Sprintf("c%d", i))
 	}
 	sb.WriteString("Definition cases : list case := [" + strings.Join(names, ";") + "].\n")
